@@ -229,6 +229,26 @@ def run_cfg(chk, facts, cfg):
         coincide('%s:quantile:lower=two(2L-1)%s' % (PID, sfx), 'quantile', res['lower'], two2, 'hi')
     except (Unsupported, NotReal) as e:
         chk.ob('%s:quantile%s' % (PID, sfx), 'E3', 'quantile', None, 'undecided: %s' % e, 'quantile::Stats::ci')
+    # geometric / harmonic: the coincidence and nesting clauses above are decided on the statement's positivity proviso
+    # through the wrapped arithmetic producer; *that* the wrappers return an interval exactly on the proviso, for every
+    # kind alike, is the region table of C05 (a one-sided harmonic request that inverts a non-positive bound has no
+    # two-sided counterpart at 2L-1 and shrinks when the level rises: seed C10-k, defect bdf2998).  Re-established here.
+    n_wr = 0
+    try:
+        from .. import core as core_
+        from . import C05 as R5
+        sub = core_.Check('C05', chk.tier)
+        R5.run_cfg(sub, facts, cfg)
+        for o in sub.obligations:
+            if '::ci_mean:' in o['key']:
+                n_wr += 1
+                chk.ob('%s:wrapper-regions:%s' % (PID, o['key'].split(':', 1)[1]), 'composition ' + o['rule'],
+                       'same outcome for every kind on each region: ' + (o.get('desc') or o['key']),
+                       None if o['status'] == 'undecided' else o['status'] == 'ok', o.get('detail') or '', o.get('where') or 'mean::Harmonic / Geometric')
+    except Exception as e:
+        chk.ob('%s:wrapper-regions%s' % (PID, sfx), 'composition', 'region tables of the geometric / harmonic wrappers', None, 'undecided: %r' % (e,), 'mean')
+    if cfg == 'default':
+        chk.floor('wrapper-region-obligations', n_wr, 9)
     from ..effects import obligation as no_hidden_state
     no_hidden_state(chk, PID, facts, sfx, 'every producer is a pure function of its inputs (kind and level cannot leak between calls)')
     chk.analysed['paths'] += pr.npaths
